@@ -11,7 +11,7 @@ PROPS = {
         "lean_modules": ["Astria.Relayer.Model", "Astria.Relayer.Theorems", "Astria.Relayer.Loop",
                          "Astria.Relayer.Drain", "Astria.Properties.C12"],
         "theorems": ["Astria.C12_exactly_once", "Astria.C12_no_silent_drop", "Astria.C12_oversized_is_hard_error",
-                     "Astria.C12_drain", "Astria.C12_height_order", "Astria.C12_payload_bound",
+                     "Astria.C12_drain", "Astria.C12_height_order", "Astria.C12_height_order_stream", "Astria.C12_payload_bound",
                      "Astria.C12_filter_only_drops_data", "Astria.C12_decode_roundtrip", "Astria.C12_conductor_view"],
         "harnesses": ["batch"],
         "monitors": ["exactly_once", "height_order", "size_bound", "refusal_justified",
@@ -24,7 +24,7 @@ PROPS = {
                 "add_sequencer_block_to_next_submission (NextSubmission::try_add, Input::extend_from_sequencer_block with the real "
                 "IncludeRollup filter, try_into_payload, brotli, Blob::new) and the real NextSubmission::take / TakeSubmission::poll, with "
                 "the recv / take+pending hand-over / completion arms of BlobSubmitter::run replicated around them. Streams of real "
-                "SequencerBlocks (ConfigureSequencerBlock, deterministic keys): 60 (thorough 400 per seed) sessions of 3-12 small blocks "
+                "SequencerBlocks (ConfigureSequencerBlock, deterministic keys): 100 (thorough 400 per seed) sessions of 3-12 small blocks "
                 "with 0-9 rollup entries over 8 rollup ids (two pairs share a Celestia namespace), all filter kinds (all / one / several / "
                 "none-matching), start heights > 0 (skips), 30% adversarial sessions (duplicate, decreasing, gapped heights, second chain "
                 "id), random interleaving of take / done / dropped-unpolled take; sessions of incompressible 1/2, 1/3, 1/4-limit blocks so "
